@@ -118,15 +118,38 @@ func Implements(n *types.Named, iface *types.Named) bool {
 	return types.Implements(types.NewPointer(n), it) || types.Implements(n, it)
 }
 
+// FlatFields lists the fields of struct type n, with the fields of nested by-value structs of the same
+// package (or anonymous struct types) flattened in.
+func FlatFields(n *types.Named) []*types.Var { return fieldsOf(n) }
+
 func fieldsOf(n *types.Named) []*types.Var {
 	st, ok := n.Underlying().(*types.Struct)
 	if !ok {
 		return nil
 	}
 	var out []*types.Var
-	for i := 0; i < st.NumFields(); i++ {
-		out = append(out, st.Field(i))
+	var walk func(st *types.Struct, d int)
+	walk = func(st *types.Struct, d int) {
+		for i := 0; i < st.NumFields(); i++ {
+			f := st.Field(i)
+			// state grouped into a nested struct held BY VALUE (declared in the same package) is still state
+			// of this object: its fields are flattened in
+			if inner, ok := f.Type().Underlying().(*types.Struct); ok && d < 3 {
+				same := false
+				if nt, ok := types.Unalias(f.Type()).(*types.Named); ok {
+					same = nt.Obj().Pkg() == n.Obj().Pkg()
+				} else {
+					same = true // anonymous struct type
+				}
+				if same {
+					walk(inner, d+1)
+					continue
+				}
+			}
+			out = append(out, f)
+		}
 	}
+	walk(st, 0)
 	return out
 }
 
